@@ -217,12 +217,22 @@ def no_multiblock_len1(arr):
 # strategies (specs only)
 
 
+_PCT = st.sampled_from(range(100))
+
+
+def chance(draw, pct):
+    """True with probability ~pct %.  sampled_from is uniform (st.integers / st.floats are biased towards their end
+    points), and the *last* pct values mean True so that Hypothesis' zero-extended (simplest) completions take the common
+    branch, not the rare one."""
+    return draw(_PCT) >= 100 - pct
+
+
 @st.composite
 def array_st(draw, zero_chunk_pct=10, **kw):
     """Array spec whose chunking has explicit zero-size chunks in ~zero_chunk_pct % of the cases (a separate stratum:
     ordinary chunkings must dominate), never on a length-1 axis (see no_multiblock_len1)."""
     arr = draw(A.array_spec(allow_zero_chunks=False, **kw))
-    if arr["shape"] and draw(st.integers(0, 99)) < zero_chunk_pct:
+    if arr["shape"] and chance(draw, zero_chunk_pct):
         chunks = [list(c) for c in arr["chunks"]]
         axes = draw(st.lists(st.integers(0, len(chunks) - 1), min_size=1, max_size=2))
         for ax in axes:
@@ -245,11 +255,11 @@ def slice_item_st(n, wide=True):
 
 @st.composite
 def int_item_st(draw, n, oob=0.05):
-    if n == 0 or draw(st.floats(0, 1)) < oob:
+    if n == 0 or chance(draw, round(oob * 100)):
         v = draw(st.sampled_from([n, -n - 1, n + 1]))
     else:
         v = draw(st.integers(-n, n - 1))
-    return {"k": "int", "v": v, "np": draw(st.integers(0, 4)) == 0}
+    return {"k": "int", "v": v, "np": chance(draw, 20)}
 
 
 @st.composite
@@ -280,7 +290,7 @@ def ints_item_st(draw, n, kinds=("list", "np", "da"), oob=0.04, max_extra=2):
     if v and draw(st.booleans()):
         flips = draw(st.lists(st.booleans(), min_size=len(v), max_size=len(v)))
         v = [x - n if f else x for x, f in zip(v, flips)]
-    if v and n > 0 and draw(st.floats(0, 1)) < oob:
+    if v and n > 0 and chance(draw, round(oob * 100)):
         pos = draw(st.integers(0, len(v) - 1))
         v[pos] = draw(st.sampled_from([n, -n - 1]))
     as_ = draw(st.sampled_from(list(kinds)))
@@ -331,7 +341,7 @@ def add_structure(draw, items, allow_none=True, allow_ellipsis=True):
     item keeps the axis it was generated for."""
     full = {"k": "slice", "v": [None, None, None]}
     items = list(items)
-    if allow_ellipsis and draw(st.integers(0, 3)) == 0:
+    if allow_ellipsis and chance(draw, 25):
         # choose a (possibly empty) run of full slices to replace; the items after it stay aligned to the last axes
         pos = draw(st.integers(0, len(items)))
         end = pos
